@@ -12,6 +12,7 @@
 //	A!:<p>       the server sends a stale / duplicate response for p's request id on the live stream
 //	D:<k>        the server drops stream k (handler returns an error); the client re-creates it
 //	C<i> T<i>    caller i's context is cancelled / its (virtual) time-out fires
+//	NS           the next write of a batch to a stream fails (io.EOF), as on a stream the server has ended
 //	X  XA        RPCClient.Close / CloseAddr
 //
 // with at most F deviation events (everything except plain submissions and answers), in several
@@ -27,8 +28,8 @@
 // allowed class and names a cause that happened to this call; an event completes exactly the calls
 // it concerns (answer -> that call succeeds; stream failure -> no call of another stream fails; a
 // call of the failed stream that stays pending is only an observation, it must return by its own
-// time-out / cancellation / Close; cancel / time-out -> that call; Close -> all); Close returns; no panic in callers
-// or recovered inside the client's loops; no loop of the client spins for ever.
+// time-out / cancellation / Close; cancel / time-out -> that call; Close -> all); Close returns; a call never
+// completes with neither a response nor an error; no panic in callers or recovered inside the client's loops; no loop of the client spins for ever.
 //
 // Nothing is decided by wall-clock time. If quiescence cannot be established, or an execution took
 // longer than 0.5 s (a real timer of gRPC could have fired), the execution is repeated and finally
